@@ -37,6 +37,9 @@ type MCall struct {
 }
 
 type MCase struct {
+	// Block: index of an endpoint that is made to fail and taken out of rotation by a
+	// status check between two batches of hash-routed calls (-1: none; registry only)
+	Block    int     `json:"block"`
 	NServers int     `json:"n_servers"`
 	Registry bool    `json:"registry"`
 	Weighted bool    `json:"weighted"` // registry only: all endpoints static-weighted
@@ -45,6 +48,7 @@ type MCase struct {
 }
 
 var (
+	mModes   [5]int32 // 0 ok, 1 failing (silent)
 	mServers []*peer.Server
 	mOnce    sync.Once
 	mSeq     int64
@@ -62,9 +66,12 @@ func (r *mRegistry) QueryServantBySet(ctx context.Context, id, set string) ([]re
 }
 
 func drawM(rt *rapid.T) MCase {
-	c := MCase{NServers: rapid.IntRange(3, 5).Draw(rt, "nservers"), Registry: rapid.Bool().Draw(rt, "registry")}
+	c := MCase{NServers: rapid.IntRange(3, 5).Draw(rt, "nservers"), Registry: rapid.Bool().Draw(rt, "registry"), Block: -1}
 	if c.Registry {
 		c.Weighted = rapid.Bool().Draw(rt, "weighted")
+		if rapid.Bool().Draw(rt, "withBlock") {
+			c.Block = rapid.IntRange(0, c.NServers-1).Draw(rt, "block")
+		}
 	}
 	for i := 0; i < c.NServers; i++ {
 		c.Weights = append(c.Weights, int32(rapid.SampledFrom([]int{4, 8, 20, 40, 100}).Draw(rt, "weight")))
@@ -106,7 +113,12 @@ func runM(c MCase) *stat.Failure {
 			if err != nil {
 				panic(err)
 			}
-			s.Handler = func(s *peer.Server, r *peer.Req) { s.Reply(r.Conn, r.Version, r.ID, 0, "", "own", 0) }
+			i := i
+			s.Handler = func(s *peer.Server, r *peer.Req) {
+				if atomic.LoadInt32(&mModes[i]) == 0 {
+					s.Reply(r.Conn, r.Version, r.ID, 0, "", "own", 0)
+				}
+			}
 			mServers = append(mServers, s)
 		}
 	})
@@ -154,55 +166,104 @@ func runM(c MCase) *stat.Failure {
 		st.Excluded("ring-collision")
 		return nil
 	}
-	ring := refRing(points, in)
+	for i := range mModes {
+		atomic.StoreInt32(&mModes[i], 0)
+	}
 	for i := 0; i < c.NServers; i++ {
 		mServers[i].ResetLog()
 	}
-	routed := map[MCall]int{}
-	for ci, call := range c.Calls {
-		tok := uint32(ci + 1)
+	tokSeq := uint32(0)
+	invoke := func(call MCall, timeout time.Duration) (int, error) {
+		tokSeq++
+		tok := tokSeq
 		buf := make([]byte, 4)
 		binary.BigEndian.PutUint32(buf, tok)
 		ctx := current.ContextWithClientCurrent(context.Background())
 		if call.HashType >= 0 {
 			current.SetClientHash(ctx, call.HashType, call.Code)
 		}
-		ctx, cancel := context.WithTimeout(ctx, 2*time.Second)
+		ctx, cancel := context.WithTimeout(ctx, timeout)
 		err := sp.TarsInvoke(ctx, 0, "echo", buf, nil, nil, &requestf.ResponsePacket{})
 		cancel()
-		if err != nil {
-			return stat.Failf("call-failed", "call %d (hash type %d code %d): %v", ci, call.HashType, call.Code, err)
-		}
 		got := -1
 		for i := 0; i < c.NServers; i++ {
 			reqs, _, _ := mServers[i].Snapshot()
-			for _, r := range reqs {
-				if len(r.Buffer) >= 4 && binary.BigEndian.Uint32(r.Buffer) == tok {
+			for j := len(reqs) - 1; j >= 0 && j >= len(reqs)-6; j-- {
+				if len(reqs[j].Buffer) >= 4 && binary.BigEndian.Uint32(reqs[j].Buffer) == tok {
 					got = i
 				}
 			}
 		}
-		if got < 0 {
-			return stat.Failf("not-routed-to-member", "call %d succeeded but none of the %d endpoints received it", ci, c.NServers)
-		}
-		want := -1
-		switch call.HashType {
-		case 0:
-			if !c.Weighted { // the order inside a weighted cycle is a selector-level matter
-				want = order[int(call.Code%uint32(c.NServers))]
+		return got, err
+	}
+	phase := func(name string, installed []int, in []bool) *stat.Failure {
+		ring := refRing(points, in)
+		routed := map[MCall]int{}
+		for ci, call := range c.Calls {
+			got, err := invoke(call, 2*time.Second)
+			if err != nil {
+				return stat.Failf("call-failed", "%s call %d (hash type %d code %d): %v", name, ci, call.HashType, call.Code, err)
 			}
-		case 1:
-			want = refSuccessor(ring, call.Code)
-		}
-		if want >= 0 && got != want {
-			kind := map[int]string{0: "mod-hash", 1: "consistent-hash"}[call.HashType]
-			return stat.Failf("hash-routing", "call %d with %s code %d (registry=%v weighted=%v, %d endpoints) reached %s, the rule sends it to %s", ci, kind, call.Code, c.Registry, c.Weighted, c.NServers, hosts[got], hosts[want])
-		}
-		if call.HashType >= 0 {
-			if prev, ok := routed[call]; ok && prev != got {
-				return stat.Failf("hash-not-deterministic", "the same hash code %d (type %d) was routed to %s and then to %s with an unchanged endpoint set", call.Code, call.HashType, hosts[prev], hosts[got])
+			if got < 0 {
+				return stat.Failf("not-routed-to-member", "%s call %d succeeded but none of the %d endpoints received it", name, ci, c.NServers)
 			}
-			routed[call] = got
+			want := -1
+			switch call.HashType {
+			case 0:
+				if !c.Weighted { // the order inside a weighted cycle is a selector-level matter
+					want = installed[int(call.Code%uint32(len(installed)))]
+				}
+			case 1:
+				want = refSuccessor(ring, call.Code)
+			}
+			if want >= 0 && got != want {
+				kind := map[int]string{0: "mod-hash", 1: "consistent-hash"}[call.HashType]
+				return stat.Failf("hash-routing", "%s call %d with %s code %d (registry=%v weighted=%v, installed %v) reached %s, the rule sends it to %s", name, ci, kind, call.Code, c.Registry, c.Weighted, installed, hosts[got], hosts[want])
+			}
+			if call.HashType >= 0 {
+				if prev, ok := routed[call]; ok && prev != got {
+					return stat.Failf("hash-not-deterministic", "%s: the same hash code %d (type %d) was routed to %s and then to %s with an unchanged endpoint set", name, call.Code, call.HashType, hosts[prev], hosts[got])
+				}
+				routed[call] = got
+			}
+		}
+		return nil
+	}
+	if f := phase("initial set:", order, in); f != nil {
+		return f
+	}
+	if c.Block >= 0 {
+		// make one endpoint fail, let it collect >= 5 consecutive failures, advance the clock,
+		// run a status check: it leaves rotation; hash routing must follow the reduced set
+		atomic.StoreInt32(&mModes[c.Block], 1)
+		for k := 0; k < 8*c.NServers; k++ {
+			invoke(MCall{HashType: -1}, 40*time.Millisecond)
+		}
+		for _, a := range sp.VerifAdapters() {
+			a.VerifShiftClock(10)
+		}
+		sp.VerifCheckStatus()
+		out := true
+		for _, h := range sp.VerifActiveHosts() {
+			if h == hosts[c.Block] {
+				out = false
+			}
+		}
+		if !out {
+			st.Class("manager-block-not-achieved", 1)
+		} else {
+			st.Class("manager-block-phase", 1)
+			var installed []int
+			in2 := make([]bool, c.NServers)
+			for _, i := range order {
+				if i != c.Block {
+					installed = append(installed, i)
+					in2[i] = true
+				}
+			}
+			if f := phase("after endpoint "+hosts[c.Block]+" left rotation:", installed, in2); f != nil {
+				return f
+			}
 		}
 	}
 	for i := 0; i < c.NServers; i++ {
